@@ -291,19 +291,15 @@ Qed.
 Lemma v_advance_vmtx : forall f vm g, f_vmetrics f = Some vm -> v_advance f g = (- Z.of_N (nth (N.to_nat g) (vm_vadv vm) 0%N))%Z.
 Proof. intros f vm g H. unfold v_advance. rewrite H. reflexivity. Qed.
 
-Lemma wrap_i16_id : forall z, (-32768 <= z < 32768)%Z -> wrap_i16 z = z.
-Proof.
-  intros z Hz. unfold wrap_i16.
-  destruct (Z_lt_le_dec z 0) as [Hn|Hn].
-  - assert (E : (z mod 65536 = z + 65536)%Z).
-    { symmetry. apply Z.mod_unique with (q := (-1)%Z); lia. }
-    rewrite E. destruct (z + 65536 <? 32768)%Z eqn:C; [apply Z.ltb_lt in C; lia|lia].
-  - rewrite Z.mod_small by lia. destruct (z <? 32768)%Z eqn:C; [reflexivity|apply Z.ltb_ge in C; lia].
-Qed.
+Lemma v_advance_fallback : forall f g, f_vmetrics f = None -> v_advance f g = (- (f_ascender f - f_descender f))%Z.
+Proof. intros f g H. unfold v_advance. rewrite H. reflexivity. Qed.
 
-Lemma v_advance_fallback : forall f g, f_vmetrics f = None -> (-32768 <= f_ascender f - f_descender f < 32768)%Z ->
-  v_advance f g = (- (f_ascender f - f_descender f))%Z.
-Proof. intros f g H Hr. unfold v_advance. rewrite H, wrap_i16_id by assumption. reflexivity. Qed.
+(* regression for the defect fixed in /repo 836488e: ascender 30000, descender -10000 (difference beyond
+   i16) gives y_advance -40000 *)
+Definition tall_font : font :=
+  mkFont 2 1000 30000%Z (-10000)%Z 0%Z [500; 600] None [(65, 1)] [] None None None None None.
+Lemma v_advance_tall : v_advance tall_font 1 = (-40000)%Z.
+Proof. reflexivity. Qed.
 
 (* ================================================================== C16_axis *)
 Definition axis_ok (d : dir) (g : glyph) : Prop :=
